@@ -362,9 +362,6 @@ func (g *fgen) inject(clause string) string {
 		} else {
 			f.Ext = rng.Pick(r, t.Fields).Ext
 		}
-		if r.Chance(1, 3) && t.Kind != InputObject {
-			f.Args = nil
-		}
 		p := r.Intn(len(t.Fields) + 1)
 		t.Fields = append(t.Fields, nil)
 		copy(t.Fields[p+1:], t.Fields[p:])
@@ -401,9 +398,22 @@ func (g *fgen) inject(clause string) string {
 	case "undefined-type:interface":
 		var t *TypeDef
 		v := "object-implements"
-		if is := g.kinds(Interface); len(is) > 0 && r.Chance(1, 3) {
-			t = rng.Pick(r, is)
+		if r.Chance(1, 3) {
+			// an interface nobody implements (its implementers would have to declare the name as well)
 			v = "interface-implements"
+			for _, i := range g.kinds(Interface) {
+				used := false
+				for _, x := range s.Types {
+					used = used || x.Implements(i.Name)
+				}
+				if !used {
+					t = i
+					break
+				}
+			}
+			if t == nil {
+				t = g.add(&TypeDef{Kind: Interface, Name: g.fresh("ZzI"), Fields: []*FieldDef{{Name: "a", Type: Named("Int")}}})
+			}
 		} else {
 			t = g.anObject()
 		}
